@@ -28,8 +28,10 @@ import re
 from typing import Any
 from typing import Callable
 
+from ..c07_monitor import BadValue
 from ..c07_monitor import FaultPlan
 from ..c07_monitor import FrameMonitor
+from ..c07_monitor import revive
 from ..c07_monitor import wrap_data
 from ..core import Ctx
 from ..instr.sched import drive
@@ -62,6 +64,8 @@ ASSUMPTIONS = [
     "break/continue at the top level of a partial or macro body are not generated (control "
     "flow, not scope; see the final report)",
     "output sentinels (« » ‹ › ⟦ ⟧) never occur in data or literals",
+    "faults are injected only at the data boundary: the k-th __getitem__ of a dict/list in the "
+    "render data, and data values whose __str__/__eq__ raise (consumer side of lambda filters)",
 ]
 
 POOL = ["a", "b", "c", "x", "i", "item"]
@@ -295,6 +299,16 @@ class Rt:
         return res
 
     # ------------------------------------------------------------------ frame findings
+    @staticmethod
+    def trim_data(wit: dict[str, Any]) -> None:
+        """Drop top-level data entries no template mentions (cosmetic; not with faults,
+        where the access count must not move)."""
+        if wit.get("fault"):
+            return
+        text = wit.get("source", "") + " ".join((wit.get("partials") or {}).values())
+        wit["data"] = {k: v for k, v in (wit.get("data") or {}).items()
+                       if re.search(r"(?<![\w-])" + re.escape(k) + r"(?![\w-])", text)}
+
     def frame_report(self, res: Res, wit: dict[str, Any],
                      shrink: Callable[[str], tuple[str, dict[str, str]]] | None = None) -> None:
         """Report the O5 events of one run (witness minimised on first sight of a key)."""
@@ -312,6 +326,7 @@ class Rt:
                         w["source"], w["partials"] = small, parts
                 except Exception:  # noqa: BLE001
                     pass
+            self.trim_data(w)
             self.ctx.violation(key, what + (f" — {detail}" if detail else ""), w)
 
 
@@ -763,6 +778,19 @@ def _o1_key(pair: Pair, prefix: list, wraps: list) -> str:
     return f"O1:{pair.construct}:{'+'.join(leaks) if leaks else 'differs-from-bare-caller'}"
 
 
+def _referenced(srcs: dict[str, str], parts: dict[str, str]) -> dict[str, str]:
+    """Partials reachable from the sources (witness hygiene)."""
+    keep: dict[str, str] = {}
+    todo = list(srcs.values())
+    while todo:
+        text = todo.pop()
+        for name, body in parts.items():
+            if name not in keep and f"'{name}'" in text:
+                keep[name] = body
+                todo.append(body)
+    return keep
+
+
 def report_o1(rt: Rt, chk: PairCheck, v: dict[str, Any], base: dict[str, Any]) -> None:
     pair = chk.pair
     # name the mechanism cheaply; spend the full minimisation only on the first few witnesses
@@ -775,6 +803,7 @@ def report_o1(rt: Rt, chk: PairCheck, v: dict[str, Any], base: dict[str, Any]) -
         key = _o1_key(pair, prefix, wraps)
     srcs, parts = chk.sources(prefix, body, wraps, suffix)
     srcs.pop("v1_without_tag", None)
+    parts = _referenced(srcs, parts)
     v2 = chk.evaluate(srcs, parts, report_frames=False)
     wit = dict(base)
     wit.update({"oracle": "O1", "key": key, "sources": srcs, "partials": parts, "outputs": v2["outs"],
@@ -939,6 +968,11 @@ ERROR_LEAVES = [
     ("has-mixed", "{{{{ gmix | has: {N} => {N} > 1 }}}}"),
     ("where-mixed", "{{{{ gmix | where: {N} => {N} < 2 | size }}}}"),
     ("map-then-fail", "{{{{ garr | map: {N} => {N}.k | sum }}}}"),
+    ("sort-natural-bad-str", "{{{{ gbad | sort_natural: {N} => {N}.v | size }}}}"),
+    ("uniq-bad-eq", "{{{{ gbadeq | uniq: {N} => {N}.v | size }}}}"),
+    ("sum-inf-minus-inf", "{{{{ ginf | sum: {N} => {N} }}}}"),
+    ("sum-int-string-limit", "{{{{ gbig | sum: {N} => {N} }}}}"),
+    ("sum-int-string-limit-2", "{{{{ gbig2 | sum: ({N}, {M}) => {N}.v }}}}"),
     ("divide-by-zero", "{{{{ 1 | divided_by: 0 }}}}"),
     ("missing-render", "{{% render 'missing' %}}"),
     ("missing-include", "{{% include 'missing' %}}"),
@@ -968,6 +1002,12 @@ class O4Gen:
         r = self.r
         data = dict(GLOBALS)
         data["gmix"] = GMIX
+        if self.errors:
+            data["gbad"] = [{"v": "a"}, {"v": BadValue("str")}, {"v": "b"}]
+            data["gbadeq"] = [{"v": 1}, {"v": BadValue("eq")}, {"v": 2}]
+            data["ginf"] = ["Infinity", "-Infinity", 1]
+            data["gbig"] = [1, "9" * 5000, 2]  # longer than the integer-string conversion limit
+            data["gbig2"] = [{"v": 1}, {"v": "9" * 5000}, {"v": 2}]
         head = ""
         for n in POOL + ["forloop", "args"]:
             k = r.choice(["undef", "undef", "global", "assign", "capture", "counter"])
@@ -1017,9 +1057,9 @@ class O4Gen:
         out = ""
         for _ in range(count):
             c = r.random()
-            if depth < 3 and c < 0.55:
+            if depth < 3 and c < 0.5:
                 out += self.construct(depth, in_loop, enclosing, iso)
-            elif c < 0.7:
+            elif c < 0.64:
                 n = r.choice(enclosing or POOL)
                 out += r.choice([f"[{{{{ {n} }}}}]", f"[{{{{ {n}.x }}}}]", "[{{ gmap.k }}]", f"[{{{{ garr[1].k }}}}{{{{ {n} }}}}]"])
             elif c < 0.8 and in_loop:
@@ -1466,7 +1506,7 @@ def replay(wit: dict[str, Any], ctx: Ctx) -> None:
         mode = wit.get("mode", "sync")
         kind = wit.get("env", "std")
         parts = wit.get("partials") or {}
-        data = wit.get("data") or {}
+        data = revive(wit.get("data") or {})
         print(f"replay C07 oracle={oracle} key={key} mode={mode} env={kind}")
         for n, s in parts.items():
             print(f"  partial {n!r}: {s!r}")
